@@ -284,7 +284,7 @@ def report_violation(pid, name, replay_obj, key=None):
     """Write a replay file and print the VIOLATION line (or KNOWN-FINDING if `key` is listed).
     Returns True if it counts as a violation."""
     for k in load_known():
-        if k.get("property") == pid and key is not None and k.get("key") == key:
+        if (k.get("property") == pid or pid in k.get("also", [])) and key is not None and k.get("key") == key:
             log("KNOWN-FINDING: property=%s %s" % (pid, k.get("what_fails", "")))
             return False
     os.makedirs(REPLAYS, exist_ok=True)
